@@ -43,7 +43,12 @@ Pages == { <<>>, <<1>>, <<2, 1>>, <<1, 1, 1>> }
 TypedKinds == {"n", "nf", "z", "b", "bf", "d", "date", "t", "e", "f", "s", "empty"}
 TypedRows == { <<a, b>> : a \in TypedKinds, b \in TypedKinds }
 
+(* header-less typed grid: two rows, second column holds possibly falsy values (0, FALSE, empty) *)
+TailKinds == {"z", "bf", "empty", "n", "b"}
+TypedGrids == { << <<"s", a>>, <<"s", b>> >> : a \in TailKinds, b \in TailKinds }
+
 Universe == CASE Kind = "deck"  -> Slides
+              [] Kind = "typedgrid" -> TypedGrids
               [] Kind = "typed" -> TypedRows
               [] Kind = "book"  -> SheetGrids
               [] Kind = "pages" -> Pages
